@@ -117,8 +117,13 @@ def irq(nf, pmax, amax, tiers, timeout):
             dd = d + ["-DFIX_NRQ=%d" % a, "-DFIX_NTQ=%d" % q]
             tag = "_f%d_p%d_a%d_rq%d_tq%d" % (nf, pmax, amax, a, q)
             out += [
+              H("irq_drain_loop_step_f%d_rq%d_tq%d" % (nf, a, q), G, "h_irq_drain_step", ["handle_atomic_runq", "make_runnable", "messageq_receive", "messageq_release"],
+                defs=["-DNF=%d" % nf, "-DPMAX=8", "-DAMAX=9", "-DIRQ_BURST=8", "-DFIX_NRQ=%d" % a, "-DFIX_NTQ=%d" % q], shadow=True, unwind=20,
+                unwindset=us + ["handle_atomic_runq.0:3"], timeout=timeout, tiers=tiers, solvers=("cadical", "minisat"), replayable=False,
+                bounded="pool of %d fibres; NOT bounded in pending requests (up to the real capacity 8), arrivals (up to capacity at every interruption point) or loop iterations (loop-cut rule: one iteration from an arbitrary invariant state, induction)" % nf,
+                note="thread-modular query (interrupt handlers fire inside the call): no native replay"),
               H("irq_handle_atomic_runq" + tag, G, "h_irq_drain", ["handle_atomic_runq", "make_runnable", "messageq_receive", "messageq_release"], defs=dd, shadow=True, unwind=12,
-                unwindset=us + ["handle_atomic_runq.0:%d" % (pmax + amax + 1)], timeout=timeout, tiers=tiers, solvers=("cadical",), bounded=b, replayable=False,
+                unwindset=us + ["handle_atomic_runq.0:%d" % (pmax + amax + 1)], timeout=timeout, tiers=[t for t in tiers if t == "thorough"], solvers=("cadical",), bounded=b, replayable=False,
                 note="thread-modular query (interrupt handlers fire inside the call): no native replay"),
               H("irq_scheduler_next" + tag, G, "h_irq_next", ["fibre_scheduler_next", "get_next_wakeup", "messageq_empty", "update_current_state", "handle_timerq"], defs=dd, shadow=True, unwind=12,
                 unwindset=us, replace_calls=["handle_atomic_runq:handle_atomic_runq_irq_contract"], restrict_fp=FP, timeout=timeout, tiers=tiers, solvers=("cadical", "minisat"), bounded=b, replayable=False,
